@@ -542,7 +542,10 @@ def eval_case(case):
         res["cov_err"], res["cross"] = cov_err, cross
         if inexact:
             if spectrum_ok(e):
-                tol = 1e-3
+                # Lanczos roots carry a ~1e-6 relative jitter; the contour quadrature (no Lanczos root involved: every
+                # generic sampler runs CIQ, sizes <= 20 so its eigenvalue estimates and MINRES are exact) is accurate to
+                # ~1e-14 on these spectra (kappa <= 100)
+                tol = 1e-6 if st[0] else 1e-3
             else:
                 tol = None
                 res["notes"].append("root accuracy not assessed (approximate root, spectrum not simple / kappa > 100)")
@@ -891,7 +894,8 @@ def run(ctx):
             continue
         if not (r.get("nontrivial") or r.get("probe")):
             continue
-        distinct.add((opbuild.describe(c["expr"]), c["st_name"], tuple(r.get("out_shape", [])), c["k"], tuple(map(tuple, r.get("plan", [])))))
+        distinct.add((opbuild.describe(c["expr"]), c["st_name"], tuple(r.get("out_shape", [])), c["k"], tuple(map(tuple, r.get("plan", []))),
+                      json.dumps(c.get("history"), sort_keys=True)))
         for m_ in r.get("methods", []) or ["(no generic leaf)"]:
             dist[m_] = dist.get(m_, 0) + 1
     evaluated = [r for r in results if "cov_err" in r]
@@ -907,17 +911,30 @@ def run(ctx):
             "sum(-3), gather (left_interp), linalg.cholesky (Cholesky-Banachiewicz transcription, no jitter)",
             "roots produced by Lanczos / class-specific root_decomposition overrides (Kron, ConstantMul, ...) are taken from the "
             "implementation (observed) and only their use by the sampler is modelled; their validity is property C06",
-            "CIQ branch (contour_integral_quad / MINRES / Lanczos): not modelled, predicate evaluated on the implementation only",
+            "CIQ branch: only its index layout is modelled (coq/C18/ModelBatch.v ciq_sample: MINRES-then-matmul stands for a "
+            "per-member, per-shift matrix); the broadcast of the per-member quadrature rule over the sample axis is compared in Coq "
+            "(check_ciq: t_expand_lead of the rule contour_integral_quad builds for the first slice alone vs the rule it used); "
+            "quadrature / MINRES accuracy: predicate on the implementation only (C11)",
+            "histories: the memoize protocol of the 'root_decomposition' entry (ModelBatch.v hist_run / root_inv_entry) is a hand "
+            "transcription; in history cases the root in use is read from the object after sampling (observed, RGiven) and only "
+            "its use by the sampler is compared; the validity of what each prior call stores is C06 / C09 / C12",
             "harness/c18_noise.py (torch.randn replaced in-process; call classification by stack inspection), harness/c18_model.py "
             "(operator expression -> sampler expression; checked each run: den vs dense oracle, alg_sample vs draws), "
             "harness/opbuild.py dense oracle",
             "IEEE rounding (exact-arithmetic theorems; tolerance 1e-9 in the correspondence)"],
         "evaluations": len(evaluated),
         "distinct_nontrivial": len(distinct),
-        "rule": "cells = class (leaf PSD constructors, structured samplers and two-level nestings) x settings {default, lanczos "
-                "(max_cholesky_size=2), fastoff (max_cholesky_size=2, covar_root_decomposition off), ciq} x batch kind x k x size "
-                "{1,2,3,5}; non-trivial = the sampler returned draws and the complete noise->draws matrix was reconstructed; "
-                "distinct by (class tree, setting, output shape, k, randn call shapes)",
+        "rule": "cells = class (leaf PSD constructors, structured samplers and two-level nestings; the same over children whose "
+                "batch members have different spectra and scales) x settings {default, lanczos (max_cholesky_size=2), fastoff "
+                "(max_cholesky_size=2, covar_root_decomposition off), ciq} x batch kind (9, up to 3 batch dims) x k {1,2,3} x size "
+                "{1,2,3,5} [x history of prior calls on the object / its generic leaves x derivation]; non-trivial = the sampler "
+                "returned draws, the complete noise->draws matrix was reconstructed and the dense covariance is not a multiple "
+                "of one repeated diagonal member; distinct by (class tree, setting, output shape, k, randn call shapes, history)",
+        "history_cases": sum(1 for c in cases if c.get("history")),
+        "history_kinds": len(H.HISTORIES), "derivations": len(H.DERIVATIONS),
+        "history_steps_that_raised": sum(len(r.get("hist_raised") or []) for r in results),
+        "different_member_cases": sum(1 for c in cases if "Var" in str(c["cell"][0]) or "@var" in str(c["cell"][0])),
+        "batch_shapes": [list(b) for b in BATCHES],
         "cells": len(cells), "generator_errors": len(gen_err), "phase_seconds": phase,
         "skipped_constructor": sum(1 for r in results if r.get("skip")),
         "coq_compared": len(coq_idx), "coq_mismatches": len(mism), "model_alarms": n_model_alarm,
@@ -929,6 +946,7 @@ def run(ctx):
         "leaf_methods": dist,
         "max_cov_err_exact": max([r["cov_err"] for r in evaluated if r.get("cov_tol") == 1e-9 and not r["fails"]] or [0.0]),
         "max_cov_err_approx": max([r["cov_err"] for r in evaluated if r.get("cov_tol") == 1e-3 and not r["fails"]] or [0.0]),
+        "max_cov_err_ciq": max([r["cov_err"] for r in evaluated if r.get("cov_tol") == 1e-6 and not r["fails"]] or [0.0]),
         "samples": samples,
     })
     ctx.assumptions = [
@@ -937,6 +955,9 @@ def run(ctx):
         "Lanczos / CIQ accuracy is assessed only for simple spectra with kappa <= 100 (tolerance 1e-3); elsewhere only shape, linearity and independence of draws",
         "torch.randn is the only noise source of the samplers and returns i.i.d. standard normals",
         "block_dim = -3 for block operators; batch shapes of children equal (no broadcasting inside PsdSum / Interpolated) in the modelled fragment",
+        "histories: every prior call's own result is valid (the first probe of the Lanczos roots is a root of every member, "
+        "root_decomposition() returns a valid root: C06 / C09); add_low_rank / cat_rows transplants only with a Cholesky-compatible "
+        "root / inverse-root pair (their mismatch is a listed C12 defect)",
     ]
 
 
